@@ -42,10 +42,20 @@ class NfdRegister(PrefixRegisterer):
     def __init__(self):
         super().__init__()
         self._prefix_register_semaphore = aio.Semaphore(1)
+        self._semaphore_loop = None
+
+    def _command_gate(self) -> aio.Semaphore:
+        # Commands are issued one at a time. A semaphore belongs to the event loop it was first waited on: the
+        # application may be run again (run_forever() after a lost connection) on a new one
+        loop = aio.get_running_loop()
+        if self._semaphore_loop is not loop:
+            self._prefix_register_semaphore = aio.Semaphore(1)
+            self._semaphore_loop = loop
+        return self._prefix_register_semaphore
 
     async def register(self, name: enc.NonStrictName) -> bool:
         # Fix the issue that NFD only allows one packet signed by a specific key for a timestamp number
-        async with self._prefix_register_semaphore:
+        async with self._command_gate():
             for _ in range(_MAX_TIMESTAMP_WAIT_MS):
                 now = utils.timestamp()
                 if now > self._last_command_timestamp:
@@ -82,7 +92,7 @@ class NfdRegister(PrefixRegisterer):
 
     async def unregister(self, name: enc.NonStrictName) -> bool:
         # Fix the issue that NFD only allows one packet signed by a specific key for a timestamp number
-        async with self._prefix_register_semaphore:
+        async with self._command_gate():
             for _ in range(_MAX_TIMESTAMP_WAIT_MS):
                 now = utils.timestamp()
                 if now > self._last_command_timestamp:
